@@ -4,6 +4,7 @@ import re
 import vcheck as V
 
 OWN = {
+    "C11": r"^(C11|C02\.(wellformed|ref|class|fields|count|kind))",
     "C01": r"^(C01|C06\.carrier|C16\.panic)",
     "C02": r"^(C02|C07\.exact|C08\.exact|C09|C10\.instant|C01\.bool)",
     "C07": r"^(C07|C01|C02\.wellformed|C02\.kind)",
@@ -158,13 +159,41 @@ def fault_mc(run, tmp):
     run.add_mc("HFault_neg", r, "negative configuration (a write result is dropped) violates Surfaces: the invariant is not vacuous")
 
 
-def plan_codec(fam, mc=None, note="", module="TraceCodec", level="model_checking", selftest=True):
+def sweep_stage(run, tmp, hx, known, kinds):
+    """Exhaustive (thorough) / strided (quick) 2^32-point sweeps driven by region tables that TLC exports from the specification."""
+    d = V.spec_dir(tmp, "sweeptable")
+    open(V.os.path.join(d, "SweepTable.cfg"), "w").close()
+    table = V.os.path.join(tmp, "sweeptable.json")
+    r = V.tlc_vectors(tmp, "SweepTable", "SweepTable", "", table, workers=1, timeout=600)
+    run.add_mc("SweepTable", r, "region tables (change points of IntMinLen / LongMinLen / DoubleMinLen, tag zero-points) exported from the specification's operators")
+    for kind in kinds:
+        out = V.os.path.join(tmp, "tr_sweep_" + kind)
+        frac = "512" if run.tier != "thorough" else ("16" if kind == "int64" else "1")
+        hxargs = ["sweep", "-family", kind, "-vectors", table, "-frac", frac]
+        V.run_hx(hx, hxargs + ["-seed", str(run.seed), "-tier", run.tier, "-out", out, "-shards", str(V.NCPU)], timeout=7200)
+        shards = V.shard_files(out)
+        v = V.validate_shards(tmp, "TraceCodec", shards, "sweep_" + kind)
+        summary = V.json.load(open(V.os.path.join(out, "summary.json")))
+        mine = owned(run.prop, v["rejs"])
+        v["rejs"] = mine
+        disputed = summary.get("disputed_by_table_interpreter", 0)
+        run.add_validation("sweep_" + kind, v, summary)
+        V.judge(run, known, mine, shards, dict(hx=hxargs, seed=run.seed, tier=run.tier, module="TraceCodec"))
+        if disputed and not mine:
+            raise V.Infra("the table interpreter disputed %d values that TLC accepts: interpreter or table wrong (no verdict)" % disputed)
+        if run.tier == "thorough":
+            run.extra["sweep_" + kind] = dict(swept_values=summary.get("swept_values"), exhaustive=(frac == "1"))
+
+
+def plan_codec(fam, mc=None, note="", module="TraceCodec", level="model_checking", selftest=True, sweeps=()):
     def f(run, tmp):
         known = V.load_known()
         hx = V.build_harness(tmp)
         if mc:
             mc(run, tmp)
         codec_stage(run, tmp, hx, known, fam, fam, module=module, selftest=selftest)
+        if sweeps:
+            sweep_stage(run, tmp, hx, known, sweeps)
         return V.finish(run, level, note)
     return f
 
@@ -297,6 +326,42 @@ def plan_c14(run, tmp):
     return V.finish(run, "exploration", "structure-aware mutants generated and classified by TLC (MutGen over the reference decoder), prefixes and random strings; every decode entry point in an isolated worker; verdict by monitors recorded in the trace and evaluated by TLC")
 
 
+def hist_stage(run, tmp, hx, known, maxlen, nsim):
+    """histories generated by HApi replayed on real instances; probes validated by TLC"""
+    vec = V.os.path.join(tmp, "hist_vectors.ndjson")
+    cfg = 'SPECIFICATION Spec\nCONSTANTS MaxLen = %d\n Deviation = "none"\nINVARIANTS Emit\nCHECK_DEADLOCK FALSE\n'
+    r = V.tlc_vectors(tmp, "HApi", "GenHist", cfg % maxlen, vec, workers=8, timeout=2400)
+    run.add_mc("GenHist", r, "generator: every history up to length %d" % maxlen)
+    nv = r["vectors"]
+    if nsim:
+        r2 = V.tlc_vectors(tmp, "HApi", "GenHistSim", cfg % 30, vec, workers=4, timeout=2400, append=True,
+                           extra=("-simulate", "num=%d" % nsim, "-depth", "31", "-seed", str(run.seed)))
+        run.add_mc("GenHistSim", r2, "generator (simulation): histories up to length 30 (every prefix printed)")
+        nv += r2["vectors"]
+    out = V.os.path.join(tmp, "tr_hist")
+    hxargs = ["hist", "-vectors", vec]
+    V.run_hx(hx, hxargs + ["-out", out, "-shards", str(V.NCPU)], timeout=7200)
+    shards = V.shard_files(out)
+    v = V.validate_shards(tmp, "TraceCodec", shards, "hist")
+    summary = V.json.load(open(V.os.path.join(out, "summary.json")))
+    summary["vectors_from_tlc"] = nv
+    mine = owned(run.prop, v["rejs"])
+    summary["rejections_owned_by_other_properties"] = len(v["rejs"]) - len(mine)
+    v["rejs"] = mine
+    run.add_validation("hist", v, summary)
+    V.judge(run, known, mine, shards, dict(hx=hxargs, seed=run.seed, tier=run.tier, module="TraceCodec"))
+    binding_selftest(run, tmp, shards, "TraceCodec", "hist", set(x[0] for x in v["rejs"]))
+
+
+def plan_c02(run, tmp):
+    known = V.load_known()
+    hx = V.build_harness(tmp)
+    codec_stage(run, tmp, hx, known, "c01", "c01")
+    # the same clauses on what a REUSED encoder / serializer emits after any history
+    hist_stage(run, tmp, hx, known, 2, 0 if run.tier == "quick" else 100)
+    return V.finish(run, "model_checking", "encoder output of generated zoo values, and of reused instances after every short API history, parsed by the TLA+ reference decoder (ParseWhole) and related to the value by Denotes")
+
+
 def plan_c11(run, tmp):
     known = V.load_known()
     hx = V.build_harness(tmp)
@@ -311,23 +376,7 @@ def plan_c11(run, tmp):
         if "Invariant ProbeEqualsFresh is violated" not in r["out"]:
             raise V.Infra("negative configuration %s did not violate ProbeEqualsFresh" % neg)
         run.add_mc("HApi_" + neg, r, "negative configuration: ProbeEqualsFresh violated")
-    vec = V.os.path.join(tmp, "hist_vectors.ndjson")
-    cfg = 'SPECIFICATION Spec\nCONSTANTS MaxLen = %d\n Deviation = "none"\nINVARIANTS Emit\nCHECK_DEADLOCK FALSE\n'
-    r = V.tlc_vectors(tmp, "HApi", "GenHist", cfg % (3 if th else 2), vec, workers=8, timeout=2400)
-    run.add_mc("GenHist", r, "generator: every history up to length %d" % (3 if th else 2))
-    r2 = V.tlc_vectors(tmp, "HApi", "GenHistSim", cfg % 30, vec, workers=4, timeout=2400, append=True,
-                       extra=("-simulate", "num=%d" % (400 if th else 12), "-depth", "31", "-seed", str(run.seed)))
-    run.add_mc("GenHistSim", r2, "generator (simulation): histories up to length 30 (every prefix printed)")
-    out = V.os.path.join(tmp, "tr_hist")
-    hxargs = ["hist", "-vectors", vec]
-    V.run_hx(hx, hxargs + ["-out", out, "-shards", str(V.NCPU)], timeout=7200)
-    shards = V.shard_files(out)
-    v = V.validate_shards(tmp, "TraceCodec", shards, "hist")
-    summary = V.json.load(open(V.os.path.join(out, "summary.json")))
-    summary["vectors_from_tlc"] = r["vectors"] + r2["vectors"]
-    run.add_validation("hist", v, summary)
-    V.judge(run, known, v["rejs"], shards, dict(hx=hxargs, seed=run.seed, tier=run.tier, module="TraceCodec"))
-    binding_selftest(run, tmp, shards, "TraceCodec", "hist", set(x[0] for x in v["rejs"]))
+    hist_stage(run, tmp, hx, known, 3 if th else 2, 400 if th else 12)
     run.assumptions += ["probe values have no multi-entry maps, so octet equality between the used and the fresh instance is required",
                         "error-ness is compared, not error text"]
     return V.finish(run, "model_checking", "HApi model-checked (ProbeEqualsFresh; three negative configurations); every history of the model up to the bound and simulated histories up to length 30 replayed on real Encoder / Decoder / Serializer instances, probes on the used and on a fresh instance compared by TLC; snapshots of values, input octets and maps before/after compared by TLC")
@@ -518,9 +567,9 @@ def conc_validate(run, tmp, shards):
 
 PLANS = {
     "C01": plan_codec("c01", None, "round trips of generated zoo values recorded as rt events and validated by TLC against TraceCodec (SameCodes)"),
-    "C02": plan_codec("c01", None, "encoder output of generated zoo values parsed by the TLA+ reference decoder (ParseWhole) and related to the value by Denotes"),
-    "C07": plan_codec("c07", scalar_mc, "integer round trips validated by TLC: exactness and shortest form per wire kind"),
-    "C08": plan_codec("c08", scalar_mc, "double round trips validated by TLC against the octet-level IEEE classification"),
+    "C02": plan_c02,
+    "C07": plan_codec("c07", scalar_mc, "integer round trips validated by TLC: exactness and shortest form per wire kind; 2^32-point sweeps (thorough: exhaustive, quick: every 512th value) against TLC-exported region tables", sweeps=("int32", "int64")),
+    "C08": plan_codec("c08", scalar_mc, "double round trips validated by TLC against the octet-level IEEE classification; sweep of the float32 bit patterns (thorough: all 2^32, quick: every 512th) against the TLC-exported table", sweeps=("float32",)),
     "C09": plan_codec("c09", None, "string/binary round trips validated by TLC: payload, character counts, chunk boundaries"),
     "C04": plan_codec("c04", None, "pointer graphs (exhaustive small, random large) encoded and decoded; TLC checks ref ordinals on the wire (Denotes binds node->ordinal) and identity in the decoded graph (canonical numbering equality)"),
     "C06": plan_codec("c06", None, "multi-value streams through one encoder/decoder and one serializer over a counting reader; TLC threads the stream state (class, type and ref tables) through the whole history: framing offsets, denotation with cross-value refs, order, no carrier"),
